@@ -24,25 +24,25 @@ EL = "svgdx::element::SvgElement"
 
 
 def run(prog, chk):
-    template_source(prog, chk)
-    C15.scope_pairing(prog, chk, "A5.reuse-scope")
-    identity_transfer(prog, chk)
-    specs(prog, chk)
-    transform_order(prog, chk)
-    C15.scope_vars_complete(prog, chk)  # every attribute of the <reuse> (also an empty one) becomes a variable of the target
-    via_transform_guard(prog, chk)
+    chk.rule(template_source, prog, chk)
+    chk.rule(C15.scope_pairing, prog, chk, "A5.reuse-scope")
+    chk.rule(identity_transfer, prog, chk)
+    chk.rule(specs, prog, chk)
+    chk.rule(transform_order, prog, chk)
+    chk.rule(C15.scope_vars_complete, prog, chk)  # every attribute of the <reuse> (also an empty one) becomes a variable of the target
+    chk.rule(via_transform_guard, prog, chk)
     from props import geomalg
-    geomalg.check_sites(prog, chk, "C18")
-    geomalg.check(prog, chk, "C18", floor=4)
+    chk.rule(geomalg.check_sites, prog, chk, "C18")
+    chk.rule(geomalg.check, prog, chk, "C18", floor=4)
     from props import C10
     import props.C15 as _C15
-    _C15.reuse_scope_encloses_instance(prog, chk)
-    _C15.reuse_reads_evaluated_element(prog, chk)
+    chk.rule(_C15.reuse_scope_encloses_instance, prog, chk)
+    chk.rule(_C15.reuse_reads_evaluated_element, prog, chk)
     from props import C17 as _C17
-    _C17.depth_pairing(prog, chk)  # a failed attempt (template not registered yet) must not leak a depth level: later reuses would hit the limit
-    C10.retry_progress(prog, chk)  # a template in a <specs> block written after its <reuse> is found on the retry: every success counts as progress
-    _C15.stack_writers(prog, chk)
-    _C15.innermost_writes(prog, chk)  # what a template's <var> assigns stays in the instance's scope (it does not reach out into an enclosing definition)
+    chk.rule(_C17.depth_pairing, prog, chk)  # a failed attempt (template not registered yet) must not leak a depth level: later reuses would hit the limit
+    chk.rule(C10.retry_progress, prog, chk)  # a template in a <specs> block written after its <reuse> is found on the retry: every success counts as progress
+    chk.rule(_C15.stack_writers, prog, chk)
+    chk.rule(_C15.innermost_writes, prog, chk)  # what a template's <var> assigns stays in the instance's scope (it does not reach out into an enclosing definition)
 
 
 def template_source(prog, chk):
